@@ -37,6 +37,16 @@ VARIABLES pc,       \* "idle" | "prep" | "answer" | "workers" | "raise" | "done"
 
 mvars == <<pc, prep, batch, multi, res, workers, table, ncalls>>
 
+(* configuration mapping (inference_manager.create_inference_instance): which operator class serves a call.  *)
+(* p-entailment and System Z have no MaxSAT back-end; System W and lex use the z3 classes exactly for "z3".   *)
+ClassFor(sys, backend) ==
+    CASE sys = "p-entailment" -> "PEntailment"
+      [] sys = "system-z"     -> "SystemZ"
+      [] sys = "system-w"     -> IF backend = "z3" THEN "SystemWZ3" ELSE "SystemW"
+      [] sys = "lex_inf"      -> IF backend = "z3" THEN "LexInfZ3" ELSE "LexInf"
+      [] sys = "c-inference"  -> "CInference"
+      [] OTHER -> "error"
+
 MInit ==
     /\ pc = "idle" /\ prep = "none" /\ batch = <<>> /\ multi = FALSE
     /\ res = <<>> /\ workers = {} /\ table = <<>> /\ ncalls = 0
